@@ -1,18 +1,30 @@
 import MsVerif.Driver.OpsTypes
+import MsVerif.Driver.OpsMs
+import MsVerif.Driver.OpsTap
 
 namespace MsVerif.Driver
 
 /-- driver state: symbol tables sent by the harness (keys, hashes, …) -/
 structure DState where
-  dummy : Unit := ()
+  tables : Tables := {}
 
 def step (st : DState) (line : String) : DState × String :=
   let ws := line.splitOn " "
   match ws with
+  | "D" :: args =>
+    match defLine st.tables args with
+    | some t => ({ st with tables := t }, "ok")
+    | none => (st, "bad-def")
   | kind :: op :: args =>
     match opsTypes kind op args with
     | some r => (st, r)
-    | none => (st, "bad-op")
+    | none =>
+      match opsMs st.tables kind op args with
+      | some r => (st, r)
+      | none =>
+        match opsTap kind op args with
+        | some r => (st, r)
+        | none => (st, "bad-op")
   | _ => (st, "bad-op")
 
 end MsVerif.Driver
